@@ -693,6 +693,34 @@ func (e *benv) block(stmts []ast.Stmt, ret func([]ast.Expr) string, cont func() 
 			}
 			return out
 		}
+		if len(s.Lhs) == len(s.Rhs) && len(s.Lhs) > 1 && (s.Tok == token.ASSIGN || s.Tok == token.DEFINE) {
+			// a, b = x, y: all right-hand sides first, then the assignments left to right
+			pre := ""
+			var single []ast.Stmt
+			var fake []string
+			for i, r := range s.Rhs {
+				b := e.expr(r)
+				name := fmt.Sprintf("par__%d_%d", e.fresh, i)
+				if b.t == "NIL" {
+					e.vars[name] = "NIL"
+				} else {
+					t := e.tmp()
+					if b.pure {
+						pre += "let " + t + " := " + b.t + " in "
+					} else {
+						pre += "do " + t + " <- " + b.t + "; "
+					}
+					e.vars[name] = t
+				}
+				fake = append(fake, name)
+				single = append(single, &ast.AssignStmt{Lhs: []ast.Expr{s.Lhs[i]}, Tok: s.Tok, Rhs: []ast.Expr{ast.NewIdent(name)}})
+			}
+			out := "(" + pre + e.block(append(single, stmts[1:]...), ret, cont) + ")"
+			for _, nme := range fake {
+				delete(e.vars, nme)
+			}
+			return out
+		}
 		if len(s.Lhs) != 1 || len(s.Rhs) != 1 {
 			return e.bad(s, "unsupported assignment")
 		}
